@@ -40,9 +40,18 @@ def run(c):
         "(the later one starts its work after the method of the earlier one returned and its goroutine had time to report); nothing is asserted "
         "about time, a wait that runs out is counted and the exchange is not compared with the model; the full check runner is C06's property, "
         "C15 models the decision of runAndMergeResults only (mergeResults)",
+        "place sessions: the pipeline with the check group in the global / source / destination block is built by an overlay-only constructor "
+        "(msgpipeline.VerifC15Placed: the structure parseMsgPipelineRootCfg yields for `destination relay.example { check {…} deliver_to … } "
+        "default_destination { deliver_to … }`); the model of the place (placedRcpts) covers the default defer_sender_reject and a check group "
+        "whose only rejecting member at the sender stage is authorize_sender; the configuration asks nothing for recipients of a block without checks",
     ]
     return c.finish(
-        rule="authorize_sender in a check group next to a SECOND check (real msgpipeline behind a real endpoint): the neighbour answers quarantine / "
+        rule="the check group with authorize_sender declared GLOBALLY, in the SOURCE block or in a DESTINATION block (states created at the first "
+        "RCPT TO of the block, the sender verdict replayed) of a real pipeline behind the real endpoint, the client naming 1-3 recipients of the "
+        "checked and of an unchecked block in every order: a message that reaches a target behind the check must come from an entitled client "
+        "(C15/session-envelope-sender-not-entitled, C15/header-author-not-entitled/session) and the accepted / refused recipients are compared "
+        "with the model's placedRcpts (`C15 placed`); "
+        "authorize_sender in a check group next to a SECOND check (real msgpipeline behind a real endpoint): the neighbour answers quarantine / "
         "reject / a reason without action / nothing at the connection, sender, recipient or body stage or at every stage, and finishes the stage "
         "before or after authorize_sender (both orders steered by the harness): a delivered message must still come from an entitled client "
         "(C15/session-envelope-sender-not-entitled, C15/header-author-not-entitled/session), the neighbour's own verdict must survive "
